@@ -75,6 +75,7 @@ extern bool g_tfo_ok;    // setsockopt(TFO) succeeds
 extern int  g_nservers;
 void vsock_install(ares_channel_t *ch);
 void vsock_reset();
+int  token_of_name(const std::string &lowercase_name);
 
 // ---- replies --------------------------------------------------------------
 bool decode_frame(const std::string &bytes, Frame &f);
